@@ -35,7 +35,7 @@ import (
 )
 
 const replayMaxLen = 4 // slices longer than this are not realised
-const replayMaxStr = 8 // strings longer than this are not realised
+const replayMaxStr = 24 // strings longer than this are not realised
 
 type rnode struct {
 	kind string // int bool real str time struct ptr slice iface-nil unsupported
